@@ -19,6 +19,7 @@ func init() {
 		Assumptions: []string{"sort.Search(n, f) returns an index in [0, n]; Collection.List is sorted by id (C01 R01.4)"},
 		Run:         runC15,
 		Controls: []Control{
+			{Name: "id-callback-writes-the-callers-copy", File: "pkg/trait/vendingpb/model.go", Old: "\treturn castConsumable(m.consumables.Add(consumable.Name, consumable, resource.WithGenIDIfAbsent()", New: "\trecord := proto.Clone(consumable).(*traits.Consumable)\n\treturn castConsumable(m.consumables.Add(consumable.Name, record, resource.WithGenIDIfAbsent()", Expect: "R15.10"},
 			{Name: "revert-F44-listing-fetched-with-read-mask", File: "pkg/trait/hailpb/model_server.go", Old: "\tsortedItems := m.model.ListHails()\n", New: "\tsortedItems := m.model.ListHails(resource.WithReadMask(request.ReadMask))\n", Expect: "R15.9"},
 			{Name: "token-alphabets-differ", File: "pkg/trait/vendingpb/pages.go", Old: "\t\treturn base64.StdEncoding.EncodeToString(tokenBytes), nil", New: "\t\treturn base64.URLEncoding.EncodeToString(tokenBytes), nil", Expect: "R15.8"},
 			{Name: "waste-token-shadowed", File: "pkg/trait/wastepb/model_server.go", Old: "\t\tstartIndex, _ = strconv.Atoi(pageToken)", New: "\t\tstartIndex, _ := strconv.Atoi(pageToken)", Expect: "R15.4"},
@@ -54,6 +55,8 @@ func runC15(c *an.Ctx) {
 	// only right if Collection.List hands the items over in ascending byte order of their ids
 	r014(c, "R15.7")
 	r158(c)
+	r1510(c)
+	c.Min("R15.10", 3)
 	c.Min("R15.8", 4)
 	c.Min("R15.9", 5)
 	c.Min("R15.7", 1)
@@ -1117,4 +1120,90 @@ func r158(c *an.Ctx) {
 		c.Check(e == d && e != "?", rule, an.ModRel(pk)+"|tokens are decoded with the alphabet they are encoded with", pos[pk+"encodePageToken"].Pos(), e,
 			"encodePageToken uses "+e+" and decodePageToken "+d+": for names whose token bytes contain the characters on which the alphabets differ the server hands out a next_page_token that it then rejects itself, and the listing stops part way through")
 	}
+}
+
+// r1510: an item is stored under the key it carries. Where a model lets the collection invent the id
+// (WithGenIDIfAbsent) and copies it into the item through WithIDCallback, the message the callback writes is the very
+// message handed to the collection as the value - not the caller's original next to a clone that is stored: the stored
+// item would keep an empty key, the listing's search and tokens read that key, and the token chain never ends.
+func r1510(c *an.Ctx) {
+	const rule = "R15.10"
+	n := 0
+	for _, fn := range c.Prog.FuncsIn("pkg/trait") {
+		if c.Prog.IsGenerated(fn.Pos()) || fn.Parent() != nil {
+			continue
+		}
+		an.Instrs(fn, func(in ssa.Instruction) {
+			call, ok := in.(*ssa.Call)
+			if !ok {
+				return
+			}
+			name := an.CalleeName(call)
+			if !strings.HasSuffix(name, "pkg/resource.Collection).Add") && !strings.HasSuffix(name, "pkg/resource.Collection).Update") {
+				return
+			}
+			if len(call.Call.Args) < 4 {
+				return
+			}
+			written := call.Call.Args[2]
+			// the id callbacks among the options of this call
+			var cbs []*ssa.Function
+			var walk func(v ssa.Value, depth int)
+			walk = func(v ssa.Value, depth int) {
+				if depth > 4 {
+					return
+				}
+				for _, s0 := range an.Sources(v) {
+					switch x := s0.(type) {
+					case *ssa.Call:
+						if an.CalleeName(x) == an.ModulePath+"/pkg/resource.WithIDCallback" {
+							if f := an.ClosureFn(x.Call.Args[0]); f != nil {
+								cbs = append(cbs, f)
+							}
+						}
+					case *ssa.Slice:
+						an.Instrs(fn, func(y ssa.Instruction) {
+							if st, isSt := y.(*ssa.Store); isSt {
+								if ia, isIA := st.Addr.(*ssa.IndexAddr); isIA && ia.X == x.X {
+									walk(st.Val, depth+1)
+								}
+							}
+						})
+					}
+				}
+			}
+			walk(call.Call.Args[3], 0)
+			for _, cb := range cbs {
+				an.Instrs(cb, func(y ssa.Instruction) {
+					st, isSt := y.(*ssa.Store)
+					if !isSt || len(cb.Params) != 1 {
+						return
+					}
+					fromID := false
+					for _, s0 := range an.Sources(st.Val) {
+						if s0 == ssa.Value(cb.Params[0]) {
+							fromID = true
+						}
+					}
+					base, _, _, isF := an.FieldOf(st.Addr)
+					if !fromID || !isF {
+						return
+					}
+					n++
+					same := false
+					for _, a := range an.Sources(base) {
+						for _, b := range an.Sources(written) {
+							if a == b {
+								same = true
+							}
+						}
+					}
+					c.SawFunc(an.FuncName(fn))
+					c.Check(same, rule, an.FuncName(fn)+"|the generated id is written into the message that is stored", st.Pos(), "",
+						"the id callback copies the generated id into a message other than the one handed to the collection (e.g. the caller's original while a clone is stored): the stored item keeps an empty key, so a listing that pages by that key issues the token of the empty key again and again")
+				})
+			}
+		})
+	}
+	c.Count("id_callbacks", n)
 }
